@@ -1,6 +1,7 @@
 """C15 - backoff / backoff_iter: monotone, capped at stop, right length, default count ends at stop,
 jitter bounded, invalid parameters raise ValueError before anything is yielded."""
 import itertools
+import json
 import math
 import struct
 from fractions import Fraction
@@ -51,21 +52,61 @@ class ScriptedRandom:
         return self.draws[i] if i < len(self.draws) else 0.0
 
 
+class SessionRandom:
+    """the `random` stand-in for a whole session: every object (call) has its own script, the harness says
+    which object is being advanced before it calls into boltons"""
+
+    def __init__(self):
+        self.scripts, self.used, self.cur = {}, {}, None
+
+    def random(self):
+        i = self.used.get(self.cur, 0)
+        self.used[self.cur] = i + 1
+        d = self.scripts.get(self.cur, ())
+        return d[i] if i < len(d) else 0.0
+
+
+MUTS = ['pop0', 'pop', 'clear', 'app', 'rev', 'set0', 'keep1']     # what a caller does to a list it was handed
+
+# small, exactly representable parameter sets (start, stop, count, factor) used by the session families
+POOL = [(1.0, 10.0, None, 2.0), (0.0, 0.5, None, 2.0), (0.25, 100.0, None, 10.0), (2.0, 15.0, 6, 2.0),
+        (3.0, 3.0, 4, 1.0), (0.0, 4.0, None, 2.0), (1.0, 4.0, None, 2.0), (-0.0, 1.0, 3, 2.0), (1.0, 10.0, 0, 2.0),
+        (0.5, 0.5, None, 2.0), (1.0, 10.0, None, 3.0), (1.0, 10.0, 1, 2.0)]
+# parameter sets that differ from a neighbour in ONE argument, or agree with it in a derived quantity
+# (stop/start, the number of steps) - what an under-keyed cache would confuse
+RELATED = [(1.0, 10.0, None, 2.0), (1.0, 10.0, None, 3.0), (1.0, 20.0, None, 2.0), (2.0, 10.0, None, 2.0),
+           (1.0, 10.0, 3, 2.0), (1.0, 10.0, 7, 2.0), (0.0, 10.0, None, 2.0), (0.5, 5.0, None, 2.0),
+           (0.0, 4.0, None, 2.0), (1.0, 4.0, None, 2.0), (4.0, 4.0, None, 2.0), (1.0, 10.0, 'repeat', 2.0),
+           (1.0, 16.0, None, 2.0), (1.0, 16.0, None, 4.0)]
+
+
 class C15(Property):
     PID = 'C15'
     QUICK_BUDGET_S = 30
     THOROUGH_BUDGET_S = 420
     RULE = ('a case is one call of backoff (fn L) or backoff_iter (fn I): start, stop, factor, jitter and the scripted '
             'random.random() results as IEEE-754 bit patterns, count None / int / "repeat"; with jitter the same call is '
-            'also made with jitter off to obtain the un-jittered value at each position. Generators: exhaustive product '
-            'over a small grid of parameter values (valid and invalid); seeded random dyadic parameter sets whose float '
+            'also made with jitter off to obtain the un-jittered value at each position; or a SESSION (kind S) of one '
+            'caller: several such calls, the caller changing the lists it was handed in between (pop(0), pop(), clear(), '
+            'append, reverse, [0]=x, del [1:]), looking at them again, and advancing several generators in interleaved '
+            'chunks (each call has its own random script; every call of a session, every list looked at again before its '
+            'caller changed it and the whole output of every generator is judged like a single call). Generators, in this '
+            'order: sessions first (the same arguments twice - also as int/bool instead of float - with each kind of '
+            'change to the first result in between; two results of the same call, one changed; ordered pairs of parameter '
+            'sets that differ in one argument or share stop/start; two/three generators of equal or related calls '
+            'advanced alternately with different jitter settings), a small set of boundary single calls (default counts of '
+            '1000-15000 steps, counts far past the cap, products that overflow, subnormal starts, -0.0), three sessions of 210 calls with 150 distinct argument tuples, 150 pairs of default-count calls with the same double stop/start but different starts at 0..1 ulp edges and 150 seeded random sessions, then exhaustive product '
+            'over a small grid of parameter values (valid and invalid); 1500 more seeded random sessions and 500 such pairs; seeded random dyadic parameter sets whose float '
             'arithmetic is exact (run on the Float and on the exact Rat instance of the model); float sets with stop '
             'placed 0..2 ulps around start*factor^k (default-count edges); adversarial magnitudes (subnormal start, '
             'overflowing products, factor 1+ulp, start 0 with stop <= 1, extreme draws). Non-trivial = valid parameters '
-            'whose un-jittered sequence has a growth step and reaches the cap; distinct = distinct parameter tuples.')
+            'whose un-jittered sequence has a growth step and reaches the cap (a session: at least two calls, one of them non-trivial); distinct = distinct parameter tuples / operation lists.')
     ASSUMPTIONS = [
         'start/stop/factor/jitter are finite doubles (ints that are exactly representable are also passed as int/bool); '
-        'count is None, an int or "repeat"; NaN and infinities are outside the property (real parameters)',
+        'count is None, an int or "repeat" (also as an equal, non-interned string); jitter also as True / False / -1; NaN and infinities are outside the property (real parameters)',
+        'every case (single call with its jitter-off twin, or whole session) runs in a new instance of the module boltons.iterutils '
+        '(module body executed again), so a reported failing input fails on its own; state kept by OTHER modules across '
+        'calls would only be seen within one session',
         'on floats "grows by exactly factor" is read as one multiplication per step, accepted within 4 ulp by the oracle '
         '(the model correspondence is bit-exact); jitter bounds are accepted within 4 ulp of the larger bound',
         'default count: the last-value-is-stop clause is demanded where stepping makes progress (factor > 1 and start '
@@ -241,11 +282,194 @@ class C15(Property):
         return self.mk(rng.choice('IL'), start, stop, count, factor, j, draws, take=rng.randint(0, 12),
                        py=rng.random() < 0.2)
 
+    # ------------------------------------------------------------------ sessions
+    def callop(self, oid, fn, start, stop, count, factor, jitter=0.0, draws=(), py=False):
+        return {'op': 'call', 'id': oid, 'fn': fn, 'start': h(start), 'stop': h(stop), 'count': count,
+                'factor': h(factor), 'jitter': h(jitter), 'draws': [h(d) for d in draws], 'py': bool(py)}
+
+    @staticmethod
+    def mutop(oid, how, val=-1.0):
+        op = {'op': 'mut', 'id': oid, 'how': how}
+        if how in ('app', 'set0'):
+            op['val'] = h(val)
+        return op
+
+    @staticmethod
+    def session(ops, inst='F'):
+        return {'kind': 'S', 'inst': inst, 'ops': ops}
+
+    def both(self, ops):
+        """the session on the Float instance and on the exact instance (callers pass dyadic parameters only)"""
+        yield self.session(ops)
+        yield self.session(ops, 'Q')
+
+    def sessions_small(self):
+        """deterministic session families; every parameter is dyadic with a short mantissa"""
+        P, R = self.callop, {'op': 'read'}
+        # S1: the same call twice, the caller having changed (used up) the first result in between
+        for n, (st, sp, c, fa) in enumerate(POOL):
+            for m, how in enumerate(MUTS):
+                py2 = [False, True, False][(n + m) % 3]
+                py1 = (n + m) % 3 == 2
+                ops = [P(0, 'L', st, sp, c, fa, py=py1), self.mutop(0, how), P(1, 'L', st, sp, c, fa, py=py2),
+                       dict(R, id=0), dict(R, id=1)]
+                for s in self.both(ops):
+                    yield s
+            # the retry loop of a caller that drops each delay once used, then leaves a marker
+            ops = [P(0, 'L', st, sp, c, fa)] + [self.mutop(0, 'pop0')] * 3 + [self.mutop(0, 'set0', -1.0),
+                   P(1, 'L', st, sp, c, fa, py=True), P(2, 'I', st, sp, c, fa), P(3, 'L', st, sp, c, fa), dict(R, id=1)]
+            for s in self.both(ops):
+                yield s
+        # S2: two results of the same call, one of them changed; a third call afterwards
+        for n, (st, sp, c, fa) in enumerate(POOL):
+            for m, how in enumerate(MUTS):
+                ops = [P(0, 'L', st, sp, c, fa), P(1, 'L', st, sp, c, fa, py=(m % 2 == 1)), self.mutop(0, how), dict(R, id=1),
+                       P(2, 'L', st, sp, c, fa), self.mutop(2, MUTS[(m + 3) % len(MUTS)], 0.5), dict(R, id=1), dict(R, id=0),
+                       dict(R, id=2)]
+                for s in self.both(ops):
+                    yield s
+        # S3: ordered pairs of related parameter sets (A, B, A again), as lists and as generators
+        for a, b in itertools.permutations(RELATED, 2):
+            for fn in 'LI':
+                ops, k = [], 0
+                for (st, sp, c, fa) in (a, b, a):
+                    if fn == 'L' and c == 'repeat':
+                        c = 5
+                    ops.append(P(k, fn, st, sp, c, fa))
+                    if fn == 'I' and c == 'repeat':
+                        ops.append({'op': 'pull', 'id': k, 'n': 6})
+                    k += 1
+                for s in self.both(ops):
+                    yield s
+        # S4: two or three generators of equal / related calls advanced alternately (with and without jitter)
+        dr = [[0.5, 0.25, 0.75, 0.0, 0.875, 0.125, 0.5, 0.5], [0.0, 0.75, 0.5, 0.25, 0.375, 0.625, 0.0, 0.25]]
+        chunks = [(1, 1, 2, 1), (2, 1, 1, 3), (0, 3, 1, 1), (1, 2, 2, 2)]
+        for n, (st, sp, c, fa) in enumerate(POOL + RELATED):
+            for j in (0.0, 0.5, -1.0):
+                other = RELATED[(n + 1) % len(RELATED)] if n % 2 else (st, sp, c, fa)
+                j1 = {0.0: 0.5, 0.5: -1.0, -1.0: 0.0}[j]          # the second generator has another jitter setting
+                ops = [P(0, 'I', st, sp, c, fa, j, dr[0] if j else ()),
+                       P(1, 'I', other[0], other[1], other[2], other[3], j1, dr[1] if j1 else ()),
+                       P(2, 'L' if c != 'repeat' else 'I', st, sp, c, fa, j, dr[1] if j else ())]
+                for a, b in zip(chunks[n % 4], chunks[(n + 1) % 4]):
+                    ops.append({'op': 'pull', 'id': 0, 'n': a})
+                    ops.append({'op': 'pull', 'id': 1, 'n': b})
+                    if c == 'repeat':
+                        ops.append({'op': 'pull', 'id': 2, 'n': 1})
+                for s in self.both(ops):
+                    yield s
+
+    def sessions_long(self):
+        """many DISTINCT calls by one caller, then the first ones again (what a bounded or bucketed memo would mix up)"""
+        P = self.callop
+        for fn, step in (('L', 1.0), ('I', 0.5), ('L', 0.25)):
+            ops = []
+            params = [(1.0 if step == 1.0 else step * (n % 7), 3.0 + step * n, None if n % 3 else 4, 2.0 if n % 2 else 1.5)
+                      for n in range(150)]
+            for n, (st, sp, c, fa) in enumerate(params + params[:60]):
+                ops.append(P(n, fn, st, sp, c, fa))
+            yield self.session(ops)
+
+    def random_session(self, rng):
+        """3..10 operations over up to four objects; parameters from the pools, sometimes perturbed"""
+        ops, objs = [], []
+        for _ in range(rng.randint(3, 10)):
+            r = rng.random()
+            lists = [o for o in objs if o[1] == 'L']
+            gens = [o for o in objs if o[1] == 'I']
+            if not objs or (r < 0.4 and len(objs) < 4):
+                st, sp, c, fa = rng.choice(POOL + RELATED)
+                if objs and rng.random() < 0.5:                  # the very same arguments as an earlier call
+                    st, sp, c, fa = objs[rng.randrange(len(objs))][2]
+                elif rng.random() < 0.3:
+                    fa = rng.choice([1.0, 1.5, 2.0, 10.0, 0.5])
+                elif rng.random() < 0.2:
+                    c = rng.choice([None, 'repeat', 0, 2, 9, -1])
+                fn = rng.choice('LLI')
+                j, d = 0.0, ()
+                if rng.random() < 0.3:
+                    j = rng.choice([0.5, 1.0, -1.0, -0.25, 1.5])
+                    d = [rng.randint(0, 15) / 16 for _ in range(8)]
+                oid = len(objs)
+                objs.append((oid, fn, (st, sp, c, fa)))
+                ops.append(self.callop(oid, fn, st, sp, c, fa, j, d, py=rng.random() < 0.3))
+            elif lists and (r < 0.7 or not gens):
+                oid = rng.choice(lists)[0]
+                if rng.random() < 0.6:
+                    ops.append(self.mutop(oid, rng.choice(MUTS), rng.choice([-1.0, 0.5, 1e9])))
+                else:
+                    ops.append({'op': 'read', 'id': oid})
+            else:
+                ops.append({'op': 'pull', 'id': rng.choice(gens)[0], 'n': rng.randint(0, 4)})
+        return self.session(ops)
+
+    def ratio_twins(self, rng):
+        """two default-count calls whose stop/start is the SAME double although start differs, stop sitting 0..1 ulp
+        around start*factor^k: repeated multiplication rounds differently from the two starts, so the number of
+        values differs in about one pair out of six (what a memo keyed on the ratio would confuse)"""
+        while True:
+            a = rng.choice([0.1, 0.3, 0.7, 1.0, 5.0, rng.uniform(0.01, 100)])
+            b = rng.choice([0.1, 0.3, 0.7, 1.0, 5.0, rng.uniform(0.01, 100)])
+            fa = rng.choice([3.0, 10.0, 1.1, 7.0, 1.5, rng.uniform(1.01, 12)])
+            e = a
+            for _ in range(rng.randint(1, 8)):
+                e *= fa
+            sa = ulps(e, rng.choice([-1, 0, 1]))
+            if a == b or sa < a:
+                continue
+            for d in range(-2, 3):
+                sb = ulps(b * (sa / a), d)
+                if sb / b == sa / a and sb >= b:
+                    fn = rng.choice('LLI')
+                    calls = [(a, sa), (b, sb), (a, sa)] if rng.random() < 0.5 else [(b, sb), (a, sa)]
+                    return self.session([self.callop(i, fn, st, sp, None, fa) for i, (st, sp) in enumerate(calls)])
+
+    def early(self):
+        """boundary single calls that must not depend on the later (large) families being reached"""
+        mk = self.mk
+        for fn in 'LI':
+            # long default counts / explicit counts far past the cap
+            for start, factor, n in [(1.0, 1.01, 1100), (1.0, 1.005, 2300), (0.0, 1.001, 6000), (0.001, 1.0005, 15000)]:
+                stop = (start or 1.0) * factor ** n
+                yield mk(fn, start, stop, None, factor)
+                yield mk(fn, start, stop, n + 7, factor)
+            for c in (64, 65, 255, 256, 257, 1000, 1001, 1023, 1024, 1025, 1100, 4097):
+                yield mk(fn, 1.0, 10.0, c, 2.0)
+                yield mk(fn, 0.0, 0.5, c, 10.0, py=True)
+            yield mk(fn, 1.0, 10.0, 'repeat', 2.0, take=1100)
+            yield mk(fn, 1.0, 1e300, 'repeat', 10.0, take=400)
+            yield mk(fn, 0.0, 3.0, 'repeat', 2.0, 0.5, [0.5] * 8, take=1100)
+            # products that overflow, huge ratios, subnormal starts, signed zeros
+            for start, stop, factor in [(1e300, 1.7976931348623157e308, 1e10), (1.0, 1.7976931348623157e308, 1e308),
+                                        (8.98846567431158e307, 1.7976931348623157e308, 2.0), (5e-324, 1e308, 2.0),
+                                        (5e-324, 1.0, 2.0), (1e-310, 1e-300, 10.0), (TINY, 1.0, 1.5),
+                                        (5e-324, 2e-323, 1.5), (-0.0, 0.5, 2.0), (-0.0, 3.0, 2.0), (0.0, 5e-324, 2.0),
+                                        (1.0, ulps(1.0, 1), ulps(1.0, 1)), (1.0, 1.0, 1e308), (0.0, 1e308, 1e308)]:
+                for c in (None, 3, 1030, 'repeat'):
+                    yield mk(fn, start, stop, c, factor, take=1030 if start == 1.0 else 12)
+            for stop in (0.0, -0.0, -1.0):
+                for start in (0.0, -0.0, 1.0, -1.0):
+                    for c in (None, 'repeat', 2):
+                        yield mk(fn, start, stop, c, 2.0, take=2)
+
     def cases(self, budget_s):
         rng = self.rng
+        for c in self.sessions_small():
+            yield c
+        for c in self.early():
+            yield c
+        for c in self.sessions_long():
+            yield c
+        for i in range(150):
+            yield self.ratio_twins(rng)
+            yield self.random_session(rng)
         for c in self.grid():
             yield c
         mult = 10 if self.thorough else 1
+        for i in range(1500 * mult):
+            yield self.random_session(rng)
+            if i % 3 == 0:
+                yield self.ratio_twins(rng)
         for i in range(6000 * mult):
             c = self.dyadic(rng)
             yield c
@@ -259,7 +483,11 @@ class C15(Property):
         rng = self.rng
         while True:
             r = rng.random()
-            if r < 0.3:
+            if r < 0.1:
+                yield self.random_session(rng)
+            elif r < 0.15:
+                yield self.ratio_twins(rng)
+            elif r < 0.3:
                 yield self.dyadic(rng)
             elif r < 0.75:
                 yield self.edge(rng)
@@ -267,7 +495,53 @@ class C15(Property):
                 yield self.adversarial(rng)
 
     # ------------------------------------------------------------------ model line
+    @staticmethod
+    def drain_limit(op):
+        c = op['count']
+        return MAX_VALUES if c is None else min(max(c, 0) + 3, MAX_VALUES)
+
+    def session_plan(self, case):
+        """static shape of a session: call ops by id (in order), position of each id, the generators that are
+        drained at the end; None when an operation addresses an object no earlier call created"""
+        calls, pos = {}, {}
+        for op in case['ops']:
+            if op['op'] == 'call':
+                if op['id'] in calls:
+                    return None
+                pos[op['id']] = len(calls)
+                calls[op['id']] = op
+            elif op['id'] not in calls:
+                return None
+        drains = [i for i, op in calls.items() if op['fn'] == 'I' and op['count'] != 'repeat']
+        return calls, pos, drains
+
+    def session_line(self, case):
+        plan = self.session_plan(case)
+        if plan is None:
+            return None
+        calls, pos, drains = plan
+        out = []
+        for op in case['ops']:
+            if op['op'] == 'call':
+                c = op['count']
+                if isinstance(c, int) and c > MODEL_MAX_COUNT:
+                    return None
+                cs = 'N' if c is None else 'R' if c == 'repeat' else str(c)
+                out.append(' '.join([op['fn'], op['start'], op['stop'], cs, op['factor'], op['jitter'],
+                                     ','.join(op['draws']) or '-']))
+            elif op['op'] == 'pull':
+                out.append('P %d %d' % (pos[op['id']], op['n']))
+            elif op['op'] == 'mut':
+                out.append('M %d %s%s' % (pos[op['id']], op['how'], ' ' + op['val'] if 'val' in op else ''))
+            else:
+                out.append('R %d' % pos[op['id']])
+        for i in drains:
+            out.append('P %d %d' % (pos[i], self.drain_limit(calls[i])))
+        return 'S|%s|%s' % (case['inst'], ';'.join(out))
+
     def line(self, case):
+        if case.get('kind') == 'S':
+            return self.session_line(case)
         c = case['count']
         if isinstance(c, int) and not isinstance(c, bool) and c > MODEL_MAX_COUNT:
             return None
@@ -286,9 +560,26 @@ class C15(Property):
             return int(x)
         return x
 
-    def call(self, case, jitter_arg):
-        """one call; returns {'vals': [hex|str], 'exc': name|None, 'end': 'stop'|'cut'|'exc'|'timeout', 'used': draws used}"""
+    _code = None
+
+    def fresh_module(self):
+        """a new instance of boltons.iterutils (the module body executed again in a new namespace): a session starts
+        from the state of a process that has just imported the module, whatever earlier cases did - so a failing
+        session fails again when replayed on its own"""
+        import types
         import boltons.iterutils as iu
+        if C15._code is None:
+            with open(iu.__file__, encoding='utf-8') as fh:
+                C15._code = compile(fh.read(), iu.__file__, 'exec')
+        m = types.ModuleType('boltons.iterutils')
+        m.__file__, m.__package__ = iu.__file__, 'boltons'
+        exec(C15._code, m.__dict__)
+        return m
+
+    def call(self, case, jitter_arg, iu=None):
+        """one call; returns {'vals': [hex|str], 'exc': name|None, 'end': 'stop'|'cut'|'exc'|'timeout', 'used': draws used}"""
+        if iu is None:
+            import boltons.iterutils as iu
         py = case['py']
         start, stop, factor = (self.pyarg(f(case[k]), py) for k in ('start', 'stop', 'factor'))
         count = case['count']
@@ -304,6 +595,7 @@ class C15(Property):
         iu.random = stub
         try:
             with time_limit(2):
+                count = self.count_arg(count, py)
                 if case['fn'] == 'L':
                     res = iu.backoff(start, stop, count=count, factor=factor, jitter=jitter_arg)
                     if not isinstance(res, list):
@@ -324,24 +616,206 @@ class C15(Property):
             exc, end = exc_name(e), 'exc'
         finally:
             iu.random = saved
+        return {'vals': self.enc(vals), 'exc': exc, 'end': end, 'used': stub.used}
+
+    @staticmethod
+    def enc(vals):
         out = []
         for v in vals[:MAX_VALUES + 2]:
             if isinstance(v, (int, float)) and not isinstance(v, bool) and (isinstance(v, float) or abs(v) < 2 ** 53):
                 out.append(h(v))
             else:
                 out.append('type:' + type(v).__name__)
-        return {'vals': out, 'exc': exc, 'end': end, 'used': stub.used}
+        return out
+
+    @staticmethod
+    def jarg(j, py):
+        if py and j == 1.0:
+            return True
+        if py and j == 0.0 and math.copysign(1.0, j) > 0:
+            return False
+        if py and j == -1.0:
+            return -1
+        return j
+
+    @staticmethod
+    def count_arg(count, py):
+        """with py, 'repeat' is passed as an equal string that is not the interned literal"""
+        return ''.join(['rep', 'eat']) if (py and count == 'repeat') else count
+
+    def session_pull(self, stub, o, oid, n):
+        """next() n times on generator object `oid`"""
+        if o is None or o['op']['fn'] != 'I':
+            return {'skip': 1}
+        if o.get('pending'):                       # the call itself raised (validation before the first next())
+            if n == 0:
+                return {'vals': [], 'exc': None, 'end': 'more'}
+            exc, o['pending'], o['obj'] = o['pending'], None, iter(())
+            return {'vals': [], 'exc': exc, 'end': 'more'}
+        stub.cur = oid
+        vals, exc, end = [], None, 'more'
+        try:
+            with time_limit(2):
+                for _ in range(n):
+                    try:
+                        vals.append(next(o['obj']))
+                    except StopIteration:
+                        end = 'end'
+                        break
+        except CaseTimeout:
+            exc = 'CaseTimeout'
+        except Exception as e:  # recorded, judged by the oracle
+            exc = exc_name(e)
+        return {'vals': self.enc(vals), 'exc': exc, 'end': end}
+
+    def impl_session(self, case):
+        iu = self.fresh_module()
+        stub = SessionRandom()
+        objs = {}                                  # id -> {'op': call op, 'obj': list | iterator, 'pending': exc name}
+        out, drain, twins = [], {}, {}
+        saved = iu.random
+        iu.random = stub
+        try:
+            for op in case['ops']:
+                kind, oid = op['op'], op['id']
+                self.stats['op:' + kind] = self.stats.get('op:' + kind, 0) + 1
+                o = objs.get(oid)
+                if kind == 'call':
+                    py = op['py']
+                    start, stop, factor = (self.pyarg(f(op[k]), py) for k in ('start', 'stop', 'factor'))
+                    ja = self.jarg(f(op['jitter']), py)
+                    stub.cur, stub.scripts[oid] = oid, [f(d) for d in op['draws']]
+                    rec = {'op': op, 'obj': None, 'pending': None}
+                    objs[oid] = rec
+                    cnt = self.count_arg(op['count'], py)
+                    try:
+                        with time_limit(2):
+                            if op['fn'] == 'L':
+                                res = iu.backoff(start, stop, count=cnt, factor=factor, jitter=ja)
+                                if not isinstance(res, list):
+                                    raise TypeError('backoff returned %s' % type(res).__name__)
+                                rec['obj'] = res                     # the very object the caller was handed
+                                out.append({'vals': self.enc(res), 'exc': None, 'end': 'stop'})
+                            else:
+                                rec['obj'] = iter(iu.backoff_iter(start, stop, count=cnt, factor=factor, jitter=ja))
+                                out.append({'gen': 1, 'exc': None})
+                    except CaseTimeout:
+                        rec['pending'] = 'CaseTimeout'
+                        out.append({'vals': [], 'exc': 'CaseTimeout', 'end': 'timeout'})
+                    except Exception as e:  # recorded, judged by the oracle
+                        rec['pending'] = exc_name(e)
+                        out.append({'vals': [], 'exc': exc_name(e), 'end': 'exc'})
+                elif kind == 'pull':
+                    out.append(self.session_pull(stub, o, oid, op['n']))
+                elif o is None or o['op']['fn'] != 'L' or not isinstance(o['obj'], list):
+                    out.append({'skip': 1})
+                elif kind == 'read':
+                    out.append({'vals': self.enc(list(o['obj']))})
+                else:
+                    lst, how = o['obj'], op['how']
+                    if how == 'pop0':
+                        del lst[:1]
+                    elif how == 'pop':
+                        del lst[-1:]
+                    elif how == 'clear':
+                        lst.clear()
+                    elif how == 'app':
+                        lst.append(f(op['val']))
+                    elif how == 'rev':
+                        lst.reverse()
+                    elif how == 'set0':
+                        if lst:
+                            lst[0] = f(op['val'])
+                    elif how == 'keep1':
+                        del lst[1:]
+                    out.append({'mut': 1})
+            for oid, o in objs.items():
+                if o['op']['fn'] == 'I' and o['op']['count'] != 'repeat':
+                    drain[str(oid)] = self.session_pull(stub, o, oid, self.drain_limit(o['op']))
+        finally:
+            iu.random = saved
+        obs = {'ops': out, 'drain': drain, 'twins': twins}
+        for oid, cc, co, label in self.per_call(case, obs):
+            if f(cc['jitter']) != 0.0 and str(oid) not in twins:
+                twins[str(oid)] = self.call(cc, False, iu)       # the same call with jitter off, after the session
+        self.stats['kind:session'] = self.stats.get('kind:session', 0) + 1
+        return obs
+
+    def per_call(self, case, obs):
+        """every call of a session as (id, single-call case, single-call observation, label): lists as returned and
+        as looked at again before their caller changed them; generators with everything they yielded"""
+        ops = case['ops']
+        res = []
+        state = {}
+        for i, (op, ob) in enumerate(zip(ops, obs['ops'])):
+            oid = op['id']
+            if op['op'] == 'call':
+                cc = {'inst': case['inst'], 'fn': op['fn'], 'start': op['start'], 'stop': op['stop'], 'count': op['count'],
+                      'factor': op['factor'], 'jitter': op['jitter'], 'draws': op['draws'], 'take': 0, 'py': op['py']}
+                st = state[oid] = {'cc': cc, 'at': i, 'changed': False, 'vals': [], 'exc': ob.get('exc'), 'end': 'cut',
+                                   'asked': 0, 'pulled': False}
+                if op['fn'] == 'L':
+                    res.append((oid, cc, {'vals': ob['vals'], 'exc': ob['exc'], 'end': ob['end']},
+                                'operation %d, %s' % (i, self.call_text(cc))))
+            elif oid not in state:
+                continue
+            elif op['op'] == 'mut':
+                state[oid]['changed'] = True
+            elif op['op'] == 'read' and 'vals' in ob and not state[oid]['changed']:
+                st = state[oid]
+                res.append((oid, st['cc'], {'vals': ob['vals'], 'exc': None, 'end': 'stop'},
+                            'the list returned by operation %d, %s, looked at again at operation %d (its caller has '
+                            'not changed it)' % (st['at'], self.call_text(st['cc']), i)))
+            elif op['op'] == 'pull' and 'vals' in ob:
+                self.absorb(state[oid], ob, op['n'])
+        for oid, ob in obs['drain'].items():
+            if int(oid) in state and 'vals' in ob:
+                self.absorb(state[int(oid)], ob, self.drain_limit(state[int(oid)]['cc']))
+        for oid, st in state.items():
+            if st['cc']['fn'] == 'I' and st['pulled']:
+                cc = dict(st['cc'], take=st['asked'])
+                end = 'exc' if st['exc'] else st['end']
+                res.append((oid, cc, {'vals': st['vals'], 'exc': st['exc'], 'end': end},
+                            'the generator made by operation %d, %s, advanced in %s' % (
+                                st['at'], self.call_text(cc), 'several steps of the session')))
+        for oid, cc, co, label in res:
+            tw = obs['twins'].get(str(oid))
+            if tw is not None and f(cc['jitter']) != 0.0:
+                co['base'] = tw
+        res.sort(key=lambda t: (state[t[0]]['at'], t[3]))
+        return res
+
+    @staticmethod
+    def absorb(st, ob, n):
+        """add one pull observation to the running account of a generator"""
+        if st['exc'] or st['end'] == 'stop':
+            return                                  # finished generators are not judged further
+        if n > 0:
+            st['pulled'] = True
+        st['asked'] += n
+        st['vals'] = st['vals'] + ob['vals']
+        if ob['exc']:
+            st['exc'] = ob['exc']
+        elif ob['end'] == 'end':
+            st['end'] = 'stop'
+
+    def call_text(self, cc):
+        c = cc['count']
+        return '%s(%r, %r, count=%s, factor=%r%s)' % (
+            'backoff' if cc['fn'] == 'L' else 'backoff_iter', self.pyarg(f(cc['start']), cc['py']),
+            self.pyarg(f(cc['stop']), cc['py']), repr(c) if not (cc['py'] and c == 'repeat') else "''.join(['rep', 'eat'])",
+            self.pyarg(f(cc['factor']), cc['py']),
+            ', jitter=%r' % self.jarg(f(cc['jitter']), cc['py']) if f(cc['jitter']) != 0.0 else '')
 
     def impl(self, case):
+        if case.get('kind') == 'S':
+            return self.impl_session(case)
         j = f(case['jitter'])
-        jarg = j
-        if case['py'] and j == 1.0:
-            jarg = True
-        elif case['py'] and j == 0.0 and math.copysign(1.0, j) > 0:
-            jarg = False
-        obs = self.call(case, jarg)
+        jarg = self.jarg(j, case['py'])
+        iu = self.fresh_module()         # every case starts from a freshly imported module: a failing case fails alone
+        obs = self.call(case, jarg, iu)
         if j != 0.0:
-            obs['base'] = self.call(case, False)
+            obs['base'] = self.call(case, False, iu)
         k = 'exc:' + str(obs['exc']) if obs['exc'] else 'count:' + ('None' if case['count'] is None else
                                                                    'repeat' if case['count'] == 'repeat' else 'int')
         for k in (k, 'inst:' + case['inst'], 'fn:' + ('backoff' if case['fn'] == 'L' else 'backoff_iter'),
@@ -350,6 +824,46 @@ class C15(Property):
         return obs
 
     def render(self, case, obs):
+        if case.get('kind') == 'S':
+            return self.render_session(case, obs)
+        return self.render_call(case, obs)
+
+    def render_session(self, case, obs):
+        def vs(o):
+            return ','.join(self.rval(case['inst'], v) for v in o['vals']) or '-'
+
+        def pull_text(o):
+            if 'skip' in o:
+                return 'skip'
+            if o['exc']:
+                return 'err ' + o['exc'] if not o['vals'] else 'err-late %s after %d values' % (o['exc'], len(o['vals']))
+            return 'vals %s %s' % (vs(o), o['end'])
+        out = []
+        for op, o in zip(case['ops'], obs['ops']):
+            if op['op'] == 'call':
+                if o['exc']:
+                    out.append('err ' + o['exc'])
+                else:
+                    out.append('gen' if 'gen' in o else 'ok ' + vs(o))
+            elif op['op'] == 'pull':
+                out.append(pull_text(o))
+            elif 'skip' in o:
+                out.append('skip')
+            else:
+                out.append('mut' if op['op'] == 'mut' else 'ok ' + vs(o))
+        plan = self.session_plan(case)
+        for oid in (plan[2] if plan else []):
+            out.append(pull_text(obs['drain'][str(oid)]))
+        return ' ; '.join(out)
+
+    @staticmethod
+    def rval(inst, hx):
+        if hx.startswith('type:') or inst == 'F':
+            return hx
+        fr = Fraction(f(hx))
+        return '%d/%d' % (fr.numerator, fr.denominator)
+
+    def render_call(self, case, obs):
         def val(hx):
             if hx.startswith('type:'):
                 return hx
@@ -370,6 +884,41 @@ class C15(Property):
 
     # ------------------------------------------------------------------ oracle (independent of the model)
     def oracle(self, case, obs):
+        if case.get('kind') != 'S':
+            return self.oracle_call(case, obs)
+        # a session: every call in it is judged as the single call it is - the statement quantifies over
+        # all calls, whatever the caller did before
+        nt, ncalls = False, 0
+        for oid, cc, co, label in self.per_call(case, obs):
+            fail = self.oracle_call(cc, co)
+            if fail is not None:
+                self._nt = False
+                return Failure(fail.tag, 'in a session of %d operations %s: %s: %s' % (
+                    len(case['ops']), self.session_text(case), label, fail.what))
+            nt = nt or self._nt
+            ncalls += 1
+        self._nt = nt and ncalls >= 2
+        return None
+
+    def session_text(self, case):
+        out = []
+        for i, op in enumerate(case['ops']):
+            if op['op'] == 'call':
+                out.append('%d: x%d = %s' % (i, op['id'], self.call_text(dict(op, inst=case['inst']))))
+            elif op['op'] == 'pull':
+                out.append('%d: next(x%d) * %d' % (i, op['id'], op['n']))
+            elif op['op'] == 'read':
+                out.append('%d: look at x%d' % (i, op['id']))
+            else:
+                out.append('%d: x%d.%s' % (i, op['id'], {'pop0': 'pop(0)', 'pop': 'pop()', 'clear': 'clear()', 'rev': 'reverse()',
+                                                       'keep1': '__delitem__(slice(1, None))'}.get(op['how']) or
+                           ('append(%r)' % f(op['val']) if op['how'] == 'app' else '__setitem__(0, %r)' % f(op['val']))))
+        plan = self.session_plan(case)
+        if plan and plan[2]:
+            out.append('finally: %s exhausted, in this order' % ', '.join('x%d' % i for i in plan[2]))
+        return '[' + '; '.join(out) + ']'
+
+    def oracle_call(self, case, obs):
         """every double x is handled as the exact integer X(x) = x * 2**1074; products live at scale U*U"""
         self._nt = False
         start, stop, factor, j = (f(case[k]) for k in ('start', 'stop', 'factor', 'jitter'))
@@ -459,9 +1008,13 @@ class C15(Property):
         return getattr(self, '_nt', False)
 
     def key(self, case):
+        if case.get('kind') == 'S':
+            return 'S|' + json.dumps(case['ops'], sort_keys=True) + case['inst']
         return '|'.join(str(case[k]) for k in ('inst', 'fn', 'start', 'stop', 'count', 'factor', 'jitter'))
 
     def describe(self, case):
+        if case.get('kind') == 'S':
+            return {'kind': 'S', 'inst': case['inst'], 'session': self.session_text(case)}
         c = dict(case)
         for k in ('start', 'stop', 'factor', 'jitter'):
             c[k] = f(case[k])
@@ -469,7 +1022,38 @@ class C15(Property):
         return c
 
     # ------------------------------------------------------------------ shrinking
+    def shrink_session(self, case):
+        ops = case['ops']
+        # drop one operation (a call together with everything that addresses its object)
+        for i, op in enumerate(ops):
+            if op['op'] == 'call':
+                rest = [o for o in ops if o['id'] != op['id']]
+            else:
+                rest = ops[:i] + ops[i + 1:]
+            if rest and any(o['op'] == 'call' for o in rest) and len(rest) < len(ops):
+                yield dict(case, ops=rest)
+        for i, op in enumerate(ops):
+            def with_op(**kw):
+                return dict(case, ops=ops[:i] + [dict(op, **kw)] + ops[i + 1:])
+            if op['op'] == 'pull' and op['n'] > 1:
+                yield with_op(n=op['n'] - 1)
+            if op['op'] == 'call':
+                if op['py']:
+                    yield with_op(py=False)
+                if f(op['jitter']) != 0.0:
+                    yield with_op(jitter=h(0.0), draws=[])
+                if op['fn'] == 'I' and op['count'] != 'repeat' and not any(
+                        o['op'] == 'pull' and o['id'] == op['id'] for o in ops):
+                    yield with_op(fn='L')
+                c = op['count']
+                if isinstance(c, int) and c > 0:
+                    yield with_op(count=c - 1)
+
     def shrink(self, case):
+        if case.get('kind') == 'S':
+            for c in self.shrink_session(case):
+                yield c
+            return
         if case['py']:
             yield dict(case, py=False)
         if f(case['jitter']) != 0.0:
